@@ -280,7 +280,7 @@ def search(ctx, exe):
         rng_ctx.cleanup()
     impl = core.run_sharded([exe], cases)
     for c, line in zip(cases, impl):
-        why = monitor(c, core.parse_trace(line) if line is not None else None, line)
+        why = core.safe_monitor(monitor, c, core.parse_trace(line) if line is not None else None, line)
         if why:
             core.report_violation(ctx, "spin", c, why, line)
             if len(ctx.violations) >= 3:
